@@ -92,6 +92,8 @@ type Obs struct {
 	Regs []Reg    `json:"regs"`
 	Reqs []ReqObs `json:"reqs"`
 	Err  string   `json:"err,omitempty"`
+	// the hooks' configuration was refused by the loader (invalid generated input)
+	Rejected string `json:"rejected,omitempty"`
 }
 
 // ---------------------------------------------------------------- the scripted hook
@@ -108,7 +110,9 @@ e=1
 exit $e
 `
 
-func patchBytes(n int) string { return fmt.Sprintf(`[{"op":"add","path":"/metadata/labels/p","value":"%d"}]`, n) }
+func patchBytes(n int) string {
+	return fmt.Sprintf(`[{"op":"add","path":"/metadata/labels/p","value":"%d"}]`, n)
+}
 
 // bytes the hook writes for a response-file kind
 func fileBytes(q Req) string {
@@ -364,7 +368,8 @@ func Run(in Input) (o Obs) {
 		Wmgr: op.AdmissionWebhookManager, Cmgr: op.ConversionWebhookManager, Logger: log.NewNop(),
 	})
 	if err := op.HookManager.Init(); err != nil {
-		o.Err = "hook manager init: " + err.Error()
+		// the configuration loader refused the hooks: no webhook exists, nothing to observe
+		o.Rejected = err.Error()
 		return
 	}
 	// the real initValidatingWebhookManager: Init(), EnableAdmissionBindings, the event handler,
@@ -558,6 +563,13 @@ func Render(in Input, obs *Obs, crash string) core.Case {
 		nb += len(h.Val) + len(h.Mut)
 	}
 	c.Tags = append(c.Tags, fmt.Sprintf("hooks:%d", len(in.Hooks)), fmt.Sprintf("bindings:%d", nb))
+	if crash == "" && obs != nil && obs.Rejected != "" {
+		c.Coq = "Case [] [] []"
+		c.JSON = map[string]any{"obs": obs, "readable": []string{"configuration refused by the loader: " + obs.Rejected}}
+		c.Key = fmt.Sprintf("rejected %v", in)
+		c.Tags = append(c.Tags, "rejected-config")
+		return c
+	}
 	if crash != "" || obs == nil || obs.Err != "" || len(obs.Reqs) != len(in.Reqs) {
 		c.Coq = "CCrash"
 		c.JSON = map[string]any{"crash": crash, "obs": obs}
@@ -643,14 +655,27 @@ func (g *gen) hooks(distinct bool) []HookSpec {
 		return fmt.Sprintf("extra%d.example.com", len(used))
 	}
 	total := 0
+	has := func(l []string, n string) bool {
+		for _, x := range l {
+			if x == n {
+				return true
+			}
+		}
+		return false
+	}
 	for h := range hs {
+		// the configuration loader rejects the same name twice in one list
 		for i := g.r.Intn(3); i > 0; i-- {
-			hs[h].Val = append(hs[h].Val, pick(valPool))
-			total++
+			if n := pick(valPool); !has(hs[h].Val, n) {
+				hs[h].Val = append(hs[h].Val, n)
+				total++
+			}
 		}
 		for i := g.r.Intn(3); i > 0; i-- {
-			hs[h].Mut = append(hs[h].Mut, pick(mutPool))
-			total++
+			if n := pick(mutPool); !has(hs[h].Mut, n) {
+				hs[h].Mut = append(hs[h].Mut, n)
+				total++
+			}
 		}
 	}
 	if total == 0 {
